@@ -560,10 +560,12 @@ static int push_args(Node *node) {
       } else {
         bool fp1 = has_flonum1(ty);
         bool fp2 = has_flonum2(ty);
+        int nfp = fp1 + (ty->size > 8 && fp2);
+        int ngp = !fp1 + (ty->size > 8 && !fp2);
 
-        if (fp + fp1 + fp2 < FP_MAX && gp + !fp1 + !fp2 < GP_MAX) {
-          fp = fp + fp1 + fp2;
-          gp = gp + !fp1 + !fp2;
+        if (fp + nfp <= FP_MAX && gp + ngp <= GP_MAX) {
+          fp = fp + nfp;
+          gp = gp + ngp;
         } else {
           arg->pass_by_stack = true;
           stack += align_to(ty->size, 8) / 8;
@@ -572,7 +574,9 @@ static int push_args(Node *node) {
       break;
     case TY_FLOAT:
     case TY_DOUBLE:
-      if (fp++ >= FP_MAX) {
+      if (fp < FP_MAX) {
+        fp++;
+      } else {
         arg->pass_by_stack = true;
         stack++;
       }
@@ -582,7 +586,9 @@ static int push_args(Node *node) {
       stack += 2;
       break;
     default:
-      if (gp++ >= GP_MAX) {
+      if (gp < GP_MAX) {
+        gp++;
+      } else {
         arg->pass_by_stack = true;
         stack++;
       }
@@ -963,8 +969,10 @@ static void gen_expr(Node *node) {
 
         bool fp1 = has_flonum1(ty);
         bool fp2 = has_flonum2(ty);
+        int nfp = fp1 + (ty->size > 8 && fp2);
+        int ngp = !fp1 + (ty->size > 8 && !fp2);
 
-        if (fp + fp1 + fp2 < FP_MAX && gp + !fp1 + !fp2 < GP_MAX) {
+        if (fp + nfp <= FP_MAX && gp + ngp <= GP_MAX) {
           if (fp1)
             popf(fp++);
           else
@@ -1417,24 +1425,30 @@ static void assign_lvar_offsets(Obj *prog) {
       case TY_UNION:
         if (ty->size <= 16) {
           bool fp1 = has_flonum(ty, 0, 8, 0);
-          bool fp2 = has_flonum(ty, 8, 16, 8);
-          if (fp + fp1 + fp2 < FP_MAX && gp + !fp1 + !fp2 < GP_MAX) {
-            fp = fp + fp1 + fp2;
-            gp = gp + !fp1 + !fp2;
+          bool fp2 = has_flonum(ty, 8, 16, 0);
+          int nfp = fp1 + (ty->size > 8 && fp2);
+          int ngp = !fp1 + (ty->size > 8 && !fp2);
+          if (fp + nfp <= FP_MAX && gp + ngp <= GP_MAX) {
+            fp = fp + nfp;
+            gp = gp + ngp;
             continue;
           }
         }
         break;
       case TY_FLOAT:
       case TY_DOUBLE:
-        if (fp++ < FP_MAX)
+        if (fp < FP_MAX) {
+          fp++;
           continue;
+        }
         break;
       case TY_LDOUBLE:
         break;
       default:
-        if (gp++ < GP_MAX)
+        if (gp < GP_MAX) {
+          gp++;
           continue;
+        }
       }
 
       top = align_to(top, 8);
